@@ -500,7 +500,7 @@ func c14PendingLimit(ev *vlib.Evidence, idx int) {
 
 func TestC14(t *testing.T) {
 	ev := vlib.NewEvidence("C14", "exploration",
-		"(race) one call in eight is cancelled at about the moment its reply arrives (nothing withheld): it may return its own reply or the context error, and nothing it leaves behind may reach a later call; (limit) with the production routing-table limit (50/10, also smaller ones) 1-3 calls wait for slow replies while limit+discard+0..29 other calls on the connection are cancelled: the waiting calls still get their own replies and cancelled calls return with the context error; two real jsonrpc2.Remote ends joined by (a) an in-memory network that delivers queued messages in PRNG-chosen order (replies overtake requests, bursts, replies before the caller waits) and can withhold replies, (b) IOCodec over net.Pipe, (c) IOCodec over loopback TCP, (d) the gorilla WebSocket codec over loopback; handlers also delegate to an in-process jsonrpc2.Local handing on their context; 1..16 concurrent callers per side, unique token per call, handlers echo (token, callee, identity of the context service) and call back over the same connection to depth <= 3; cancellations are issued while the reply is provably withheld, then the late reply is released; PendingLimit 0 and 50/10; non-trivial = calls succeeded with >1 caller or nesting (memnet: and at least one reordered delivery); distinct = round descriptors")
+		"(race) one call in eight is cancelled at about the moment its reply arrives (nothing withheld): it may return its own reply or the context error, and nothing it leaves behind may reach a later call; (limit) with the production routing-table limit (50/10, also smaller ones) 1-3 calls wait for slow replies while limit+discard+0..29 other calls on the connection are cancelled: the waiting calls still get their own replies and cancelled calls return with the context error; two real jsonrpc2.Remote ends joined by (a) an in-memory network that delivers queued messages in PRNG-chosen order (replies overtake requests, bursts, replies before the caller waits) and can withhold replies, (b) IOCodec over net.Pipe, (c) IOCodec over loopback TCP, (d) the gorilla WebSocket codec over loopback; handlers also delegate to an in-process jsonrpc2.Local handing on their context; 1..16 concurrent callers per side, unique token per call, handlers echo (token, callee, identity of the context service) and call back over the same connection to depth <= 3; cancellations are issued while the reply is provably withheld, then the late reply is released; PendingLimit 0 and 50/10; non-trivial = calls succeeded with >1 caller or nesting (memnet: and at least one reordered delivery); distinct = round descriptors; (faults) reply writes failing on the serving side")
 	ev.Assume("stall detection is logical (no delivery and no completion for 15 s with calls outstanding), not a deadline on the round")
 	parallelCases(vlib.Scale(12, 600), 6, func(i int) { c14PendingLimit(ev, i) })
 	parallelCases(vlib.Scale(12, 600), 6, func(i int) { c14ReplyWriteFails(ev, i) })
